@@ -10,6 +10,9 @@ import (
 	"sort"
 	"strconv"
 	"strings"
+	"sync"
+	"sync/atomic"
+	"time"
 
 	"github.com/lindb/lindb/constants"
 	"github.com/lindb/lindb/coordinator/discovery"
@@ -27,18 +30,40 @@ func init() { core.Register(area{}) }
 func (area) Name() string { return "master" }
 
 // memRepo is the in-memory stand-in for etcd: only the calls the state manager makes.
+// It is used from the harness goroutine and (in burst regions) from the manager's consumer
+// goroutine, hence the mutex.
 type memRepo struct {
 	state.Repository
+	mu sync.Mutex
 	kv map[string][]byte
 	// asgPuts counts successful Puts per key (a Put is what makes etcd emit a watch event)
 	asgPuts map[string]int
 	// failAsgPut > 0: the failAsgPut-th next Put on a shard-assignment key fails once
 	failAsgPut int
+	// failStatePut: the next Put on /storage/state fails once
+	failStatePut bool
+	// faultFired: an injected fault fired since the harness last cleared the flag
+	faultFired bool
+	// stall != nil: a Put on /storage/state waits until the channel is closed (slow repository);
+	// stalled is signalled when a Put starts waiting
+	stall   chan struct{}
+	stalled chan struct{}
+	// a Get on sentinelKey signals sentinelSeen (quiescence marker of a burst)
+	sentinelKey  string
+	sentinelSeen chan struct{}
 }
 
 var errInjectedPut = fmt.Errorf("verif: injected repository write failure")
 
 func (r *memRepo) Get(_ context.Context, key string) ([]byte, error) {
+	r.mu.Lock()
+	defer r.mu.Unlock()
+	if key == r.sentinelKey && r.sentinelSeen != nil {
+		select {
+		case r.sentinelSeen <- struct{}{}:
+		default:
+		}
+	}
 	v, ok := r.kv[key]
 	if !ok {
 		return nil, state.ErrNotExist
@@ -46,6 +71,8 @@ func (r *memRepo) Get(_ context.Context, key string) ([]byte, error) {
 	return v, nil
 }
 func (r *memRepo) List(_ context.Context, prefix string) ([]state.KeyValue, error) {
+	r.mu.Lock()
+	defer r.mu.Unlock()
 	var keys []string
 	for k := range r.kv {
 		if strings.HasPrefix(k, prefix) {
@@ -60,11 +87,29 @@ func (r *memRepo) List(_ context.Context, prefix string) ([]state.KeyValue, erro
 	return out, nil
 }
 func (r *memRepo) Put(_ context.Context, key string, val []byte) error {
+	r.mu.Lock()
+	if key == constants.StorageStatePath && r.stall != nil {
+		ch := r.stall
+		select {
+		case r.stalled <- struct{}{}:
+		default:
+		}
+		r.mu.Unlock()
+		<-ch
+		r.mu.Lock()
+	}
+	defer r.mu.Unlock()
 	if r.failAsgPut > 0 && strings.HasPrefix(key, constants.ShardAssignmentPath+"/") {
 		r.failAsgPut--
 		if r.failAsgPut == 0 {
+			r.faultFired = true
 			return errInjectedPut
 		}
+	}
+	if r.failStatePut && key == constants.StorageStatePath {
+		r.failStatePut = false
+		r.faultFired = true
+		return errInjectedPut
 	}
 	r.kv[key] = append([]byte(nil), val...)
 	if r.asgPuts != nil {
@@ -72,8 +117,36 @@ func (r *memRepo) Put(_ context.Context, key string, val []byte) error {
 	}
 	return nil
 }
-func (r *memRepo) Delete(_ context.Context, key string) error { delete(r.kv, key); return nil }
-func (r *memRepo) Close() error                               { return nil }
+func (r *memRepo) Delete(_ context.Context, key string) error {
+	r.mu.Lock()
+	defer r.mu.Unlock()
+	delete(r.kv, key)
+	return nil
+}
+func (r *memRepo) Close() error { return nil }
+
+// harness-side access (same lock)
+func (r *memRepo) set(key string, val []byte) {
+	r.mu.Lock()
+	defer r.mu.Unlock()
+	r.kv[key] = val
+}
+func (r *memRepo) del(key string) {
+	r.mu.Lock()
+	defer r.mu.Unlock()
+	delete(r.kv, key)
+}
+func (r *memRepo) raw(key string) ([]byte, bool) {
+	r.mu.Lock()
+	defer r.mu.Unlock()
+	v, ok := r.kv[key]
+	return v, ok
+}
+func (r *memRepo) puts(key string) int {
+	r.mu.Lock()
+	defer r.mu.Unlock()
+	return r.asgPuts[key]
+}
 
 func showReplicas(rs []models.NodeID) string {
 	s := make([]string, len(rs))
@@ -300,16 +373,6 @@ type machine struct {
 func dbName(d int) string { return "db" + strconv.Itoa(d) }
 
 func (m *machine) dump() string {
-	st := m.mgr.GetStorageState()
-	var live []int
-	for id := range st.LiveNodes {
-		live = append(live, int(id))
-	}
-	sort.Ints(live)
-	ls := make([]string, len(live))
-	for i, v := range live {
-		ls[i] = strconv.Itoa(v)
-	}
 	var dbs []int
 	for d := range m.dbs {
 		dbs = append(dbs, d)
@@ -319,13 +382,28 @@ func (m *machine) dump() string {
 	for i, v := range dbs {
 		ds[i] = strconv.Itoa(v)
 	}
+	live, body := dumpStorage(m.mgr.GetStorageState())
+	return fmt.Sprintf("live=%s dbs=%s ", live, strings.Join(ds, ",")) + body
+}
+
+// dumpStorage renders a storage state canonically: live node ids, and per database the shard states.
+func dumpStorage(st *models.StorageState) (liveStr, body string) {
+	var live []int
+	for id := range st.LiveNodes {
+		live = append(live, int(id))
+	}
+	sort.Ints(live)
+	ls := make([]string, len(live))
+	for i, v := range live {
+		ls[i] = strconv.Itoa(v)
+	}
 	var names []int
 	for name := range st.ShardStates {
 		d, _ := strconv.Atoi(strings.TrimPrefix(name, "db"))
 		names = append(names, d)
 	}
 	sort.Ints(names)
-	var body []string
+	var parts []string
 	for _, d := range names {
 		ss := st.ShardStates[dbName(d)]
 		var ids []int
@@ -333,14 +411,51 @@ func (m *machine) dump() string {
 			ids = append(ids, int(id))
 		}
 		sort.Ints(ids)
-		var parts []string
+		var p []string
 		for _, id := range ids {
 			s := ss[models.ShardID(id)]
-			parts = append(parts, fmt.Sprintf("%d.%d:%d:%d:%s", d, id, int(s.State), int(s.Leader), showReplicas(s.Replica.Replicas)))
+			p = append(p, fmt.Sprintf("%d.%d:%d:%d:%s", d, id, int(s.State), int(s.Leader), showReplicas(s.Replica.Replicas)))
 		}
-		body = append(body, strings.Join(parts, " "))
+		parts = append(parts, strings.Join(p, " "))
 	}
-	return fmt.Sprintf("live=%s dbs=%s ", strings.Join(ls, ","), strings.Join(ds, ",")) + strings.Join(body, " ")
+	return strings.Join(ls, ","), strings.Join(parts, " ")
+}
+
+// publishedOracle: what brokers and storage nodes read is the copy of the storage state that
+// syncState wrote under /storage/state. After an event that the manager handled successfully
+// (no injected write fault fired during it) and whose handler publishes (node start-up, node
+// failure, assignment change, drop of a known database), the published copy must say what the
+// manager holds in memory — same live nodes, same shard states, same assignments.
+func (m *machine) publishedOracle(c *core.Ctx, after string) {
+	st := m.mgr.GetStorageState()
+	raw, ok := m.repo.raw(constants.StorageStatePath)
+	if !ok {
+		c.Fail("published-state-stale", fmt.Sprintf("after %q: nothing published under %s", after, constants.StorageStatePath))
+		return
+	}
+	pub := models.NewStorageState()
+	if err := json.Unmarshal(raw, pub); err != nil {
+		c.Fail("published-state-stale", fmt.Sprintf("after %q: published state does not parse: %v", after, err))
+		return
+	}
+	canon := func(s *models.StorageState) string {
+		l, b := dumpStorage(s)
+		var names []string
+		for n := range s.ShardAssignments {
+			names = append(names, n)
+		}
+		sort.Strings(names)
+		var as []string
+		for _, n := range names {
+			if s.ShardAssignments[n] != nil {
+				as = append(as, n+"{"+showAsg(s.ShardAssignments[n])+"}")
+			}
+		}
+		return "live=" + l + " states=[" + b + "] assignments=[" + strings.Join(as, " ") + "]"
+	}
+	if p, q := canon(pub), canon(st); p != q {
+		c.Fail("published-state-stale", fmt.Sprintf("after successfully handled %q: published %s but the manager holds %s", after, p, q))
+	}
 }
 
 // oracle: the C18 statement on the implementation's state.
@@ -398,21 +513,41 @@ func (m *machine) oracle(c *core.Ctx, after string) {
 	}
 }
 
-func (m *machine) event(c *core.Ctx, op string, ev *discovery.Event) {
+// event feeds one event synchronously. publishes: the handler of this event ends in syncState.
+func (m *machine) event(c *core.Ctx, op string, ev *discovery.Event, publishes bool) {
+	m.repo.mu.Lock()
+	m.repo.faultFired = false
+	m.repo.mu.Unlock()
 	c.Guard(op, func() string {
 		master.VerifProcessEvent(m.mgr, ev)
 		return m.dump()
 	})
 	m.oracle(c, op)
+	m.repo.mu.Lock()
+	fired := m.repo.faultFired
+	armed := m.repo.failStatePut
+	m.repo.failStatePut = false // a state-write fault is for one event only
+	m.repo.mu.Unlock()
+	switch {
+	case fired:
+		c.Branch("ev-handled-with-write-fault")
+	case publishes:
+		m.publishedOracle(c, op)
+	}
+	if armed && publishes {
+		c.Branch("ev-state-fault-not-hit")
+	}
 }
 
 // evStep is one scheduled event of a state-machine case.
 type evStep struct {
-	// up | down | cfg | cfgq | deliver | deliverlast | dup | putfail | drop
+	// up | down | cfg | cfgq | deliver | deliverlast | dup | putfail | statefail | burst | drop
 	kind string
 	// up/down: node id; cfg/cfgq: db, shards (create) or extra shards (grow), replica factor;
 	// drop/deliver/deliverlast/dup: db; putfail: which of the next assignment Puts fails (1 or 2)
 	a, b, c int
+	// burst: node events handed to the real EmitEvent back to back while the repository stalls
+	burst []evStep
 }
 
 // scripts are fixed scenarios that run on every seed as the first cases.
@@ -425,26 +560,41 @@ type evStep struct {
 // another replica factor on other nodes; a failed repository write during a grow followed by
 // node failure / start-up.
 var scripts = [][]evStep{
-	{{"up", 1, 0, 0}, {"up", 2, 0, 0}, {"up", 1, 0, 0}, {"down", 7, 0, 0}, {"cfg", 0, 4, 2}, {"up", 2, 0, 0},
-		{"down", 1, 0, 0}, {"down", 1, 0, 0}, {"down", 2, 0, 0}, {"up", 2, 0, 0}, {"up", 2, 0, 0}, {"up", 1, 0, 0},
-		{"cfg", 0, 3, 2}, {"down", 2, 0, 0}, {"drop", 0, 0, 0}, {"down", 1, 0, 0}, {"cfg", 0, 2, 1}, {"up", 1, 0, 0}, {"cfg", 0, 0, 1}},
-	{{"up", 0, 0, 0}, {"up", 3, 0, 0}, {"up", 5, 0, 0}, {"cfg", 1, 6, 2}, {"cfg", 2, 5, 1}, {"down", 3, 0, 0}, {"down", 0, 0, 0},
-		{"down", 5, 0, 0}, {"down", 5, 0, 0}, {"up", 4, 0, 0}, {"up", 3, 0, 0}, {"cfg", 1, 2, 3}, {"up", 0, 0, 0}, {"up", 5, 0, 0},
-		{"cfg", 1, 3, 3}, {"down", 0, 0, 0}, {"up", 0, 0, 0}, {"drop", 2, 0, 0}, {"drop", 2, 0, 0}, {"down", 3, 0, 0}},
-	{{"cfg", 0, 3, 1}, {"down", 0, 0, 0}, {"up", 0, 0, 0}, {"cfg", 0, 0, 1}, {"down", 0, 0, 0}, {"up", 1, 0, 0}, {"cfg", 0, 2, 1},
-		{"up", 0, 0, 0}, {"down", 1, 0, 0}, {"cfg", 1, 2, 3}, {"up", 1, 0, 0}, {"up", 2, 0, 0}, {"cfg", 1, 0, 3}, {"down", 1, 0, 0}},
-	{{"up", 0, 0, 0}, {"up", 1, 0, 0}, {"up", 2, 0, 0}, {"up", 3, 0, 0}, {"up", 4, 0, 0},
-		{"cfgq", 0, 4, 2}, {"cfgq", 1, 4, 2}, {"cfgq", 2, 4, 3}, {"cfgq", 0, 3, 0}, {"cfgq", 1, 3, 0}, {"cfgq", 2, 3, 0},
-		{"deliver", 0, 0, 0}, {"deliver", 1, 0, 0}, {"deliver", 2, 0, 0}, {"down", 4, 0, 0},
-		{"cfgq", 0, 3, 0}, {"cfgq", 1, 3, 0}, {"cfgq", 2, 3, 0}, {"deliver", 0, 0, 0}, {"deliver", 0, 0, 0}, {"deliver", 1, 0, 0},
-		{"up", 4, 0, 0}, {"deliver", 1, 0, 0}, {"deliver", 2, 0, 0}, {"deliver", 2, 0, 0}, {"dup", 0, 0, 0}, {"cfg", 0, 1, 0}},
-	{{"up", 1, 0, 0}, {"up", 2, 0, 0}, {"up", 3, 0, 0}, {"cfgq", 0, 3, 2}, {"drop", 0, 0, 0}, {"deliver", 0, 0, 0},
-		{"down", 1, 0, 0}, {"down", 2, 0, 0}, {"up", 4, 0, 0}, {"cfg", 0, 3, 1}, {"down", 3, 0, 0}, {"drop", 0, 0, 0},
-		{"cfg", 1, 2, 2}, {"cfgq", 1, 2, 0}, {"drop", 1, 0, 0}, {"deliver", 1, 0, 0}, {"up", 5, 0, 0}, {"cfg", 1, 6, 2},
-		{"drop", 1, 0, 0}, {"dup", 1, 0, 0}, {"drop", 1, 0, 0}, {"cfg", 1, 2, 1}},
-	{{"up", 1, 0, 0}, {"up", 2, 0, 0}, {"cfg", 0, 2, 1}, {"putfail", 1, 0, 0}, {"cfgq", 0, 2, 0}, {"down", 1, 0, 0}, {"up", 1, 0, 0},
-		{"up", 2, 0, 0}, {"deliver", 0, 0, 0}, {"cfg", 0, 1, 0}, {"putfail", 2, 0, 0}, {"cfg", 0, 3, 0}, {"up", 1, 0, 0},
-		{"putfail", 1, 0, 0}, {"cfg", 1, 3, 2}, {"up", 2, 0, 0}, {"cfg", 1, 0, 2}, {"putfail", 2, 0, 0}, {"cfg", 2, 2, 1}, {"up", 1, 0, 0}},
+	{{"up", 1, 0, 0, nil}, {"up", 2, 0, 0, nil}, {"up", 1, 0, 0, nil}, {"down", 7, 0, 0, nil}, {"cfg", 0, 4, 2, nil}, {"up", 2, 0, 0, nil},
+		{"down", 1, 0, 0, nil}, {"down", 1, 0, 0, nil}, {"down", 2, 0, 0, nil}, {"up", 2, 0, 0, nil}, {"up", 2, 0, 0, nil}, {"up", 1, 0, 0, nil},
+		{"cfg", 0, 3, 2, nil}, {"down", 2, 0, 0, nil}, {"drop", 0, 0, 0, nil}, {"down", 1, 0, 0, nil}, {"cfg", 0, 2, 1, nil}, {"up", 1, 0, 0, nil}, {"cfg", 0, 0, 1, nil}},
+	{{"up", 0, 0, 0, nil}, {"up", 3, 0, 0, nil}, {"up", 5, 0, 0, nil}, {"cfg", 1, 6, 2, nil}, {"cfg", 2, 5, 1, nil}, {"down", 3, 0, 0, nil}, {"down", 0, 0, 0, nil},
+		{"down", 5, 0, 0, nil}, {"down", 5, 0, 0, nil}, {"up", 4, 0, 0, nil}, {"up", 3, 0, 0, nil}, {"cfg", 1, 2, 3, nil}, {"up", 0, 0, 0, nil}, {"up", 5, 0, 0, nil},
+		{"cfg", 1, 3, 3, nil}, {"down", 0, 0, 0, nil}, {"up", 0, 0, 0, nil}, {"drop", 2, 0, 0, nil}, {"drop", 2, 0, 0, nil}, {"down", 3, 0, 0, nil}},
+	{{"cfg", 0, 3, 1, nil}, {"down", 0, 0, 0, nil}, {"up", 0, 0, 0, nil}, {"cfg", 0, 0, 1, nil}, {"down", 0, 0, 0, nil}, {"up", 1, 0, 0, nil}, {"cfg", 0, 2, 1, nil},
+		{"up", 0, 0, 0, nil}, {"down", 1, 0, 0, nil}, {"cfg", 1, 2, 3, nil}, {"up", 1, 0, 0, nil}, {"up", 2, 0, 0, nil}, {"cfg", 1, 0, 3, nil}, {"down", 1, 0, 0, nil}},
+	{{"up", 0, 0, 0, nil}, {"up", 1, 0, 0, nil}, {"up", 2, 0, 0, nil}, {"up", 3, 0, 0, nil}, {"up", 4, 0, 0, nil},
+		{"cfgq", 0, 4, 2, nil}, {"cfgq", 1, 4, 2, nil}, {"cfgq", 2, 4, 3, nil}, {"cfgq", 0, 3, 0, nil}, {"cfgq", 1, 3, 0, nil}, {"cfgq", 2, 3, 0, nil},
+		{"deliver", 0, 0, 0, nil}, {"deliver", 1, 0, 0, nil}, {"deliver", 2, 0, 0, nil}, {"down", 4, 0, 0, nil},
+		{"cfgq", 0, 3, 0, nil}, {"cfgq", 1, 3, 0, nil}, {"cfgq", 2, 3, 0, nil}, {"deliver", 0, 0, 0, nil}, {"deliver", 0, 0, 0, nil}, {"deliver", 1, 0, 0, nil},
+		{"up", 4, 0, 0, nil}, {"deliver", 1, 0, 0, nil}, {"deliver", 2, 0, 0, nil}, {"deliver", 2, 0, 0, nil}, {"dup", 0, 0, 0, nil}, {"cfg", 0, 1, 0, nil}},
+	{{"up", 1, 0, 0, nil}, {"up", 2, 0, 0, nil}, {"up", 3, 0, 0, nil}, {"cfgq", 0, 3, 2, nil}, {"drop", 0, 0, 0, nil}, {"deliver", 0, 0, 0, nil},
+		{"down", 1, 0, 0, nil}, {"down", 2, 0, 0, nil}, {"up", 4, 0, 0, nil}, {"cfg", 0, 3, 1, nil}, {"down", 3, 0, 0, nil}, {"drop", 0, 0, 0, nil},
+		{"cfg", 1, 2, 2, nil}, {"cfgq", 1, 2, 0, nil}, {"drop", 1, 0, 0, nil}, {"deliver", 1, 0, 0, nil}, {"up", 5, 0, 0, nil}, {"cfg", 1, 6, 2, nil},
+		{"drop", 1, 0, 0, nil}, {"dup", 1, 0, 0, nil}, {"drop", 1, 0, 0, nil}, {"cfg", 1, 2, 1, nil}},
+	{{"up", 1, 0, 0, nil}, {"up", 2, 0, 0, nil}, {"cfg", 0, 2, 1, nil}, {"putfail", 1, 0, 0, nil}, {"cfgq", 0, 2, 0, nil}, {"down", 1, 0, 0, nil}, {"up", 1, 0, 0, nil},
+		{"up", 2, 0, 0, nil}, {"deliver", 0, 0, 0, nil}, {"cfg", 0, 1, 0, nil}, {"putfail", 2, 0, 0, nil}, {"cfg", 0, 3, 0, nil}, {"up", 1, 0, 0, nil},
+		{"putfail", 1, 0, 0, nil}, {"cfg", 1, 3, 2, nil}, {"up", 2, 0, 0, nil}, {"cfg", 1, 0, 2, nil}, {"putfail", 2, 0, 0, nil}, {"cfg", 2, 2, 1, nil}, {"up", 1, 0, 0, nil}},
+	// 6: the write of the published state fails during a leadership-changing event; the events that
+	// follow leave the state as it is (node re-registration, re-trigger of the unchanged assignment)
+	{{"up", 1, 0, 0, nil}, {"up", 2, 0, 0, nil}, {"cfg", 0, 3, 2, nil}, {"statefail", 0, 0, 0, nil}, {"down", 1, 0, 0, nil}, {"up", 2, 0, 0, nil}, {"cfg", 0, 0, 2, nil},
+		{"statefail", 0, 0, 0, nil}, {"up", 1, 0, 0, nil}, {"up", 1, 0, 0, nil}, {"up", 2, 0, 0, nil}, {"down", 2, 0, 0, nil}, {"statefail", 0, 0, 0, nil}, {"down", 1, 0, 0, nil},
+		{"down", 1, 0, 0, nil}, {"down", 7, 0, 0, nil}, {"dup", 0, 0, 0, nil}, {"statefail", 0, 0, 0, nil}, {"drop", 0, 0, 0, nil}, {"drop", 0, 0, 0, nil}, {"up", 1, 0, 0, nil}},
+	// 7: bursts of node events through the real EmitEvent / consumeEvent while the repository stalls
+	{{"up", 0, 0, 0, nil}, {"up", 1, 0, 0, nil}, {"up", 2, 0, 0, nil}, {"cfg", 0, 6, 2, nil}, {"cfg", 1, 3, 1, nil},
+		{kind: "burst", burst: []evStep{{"down", 0, 0, 0, nil}, {"down", 1, 0, 0, nil}, {"up", 3, 0, 0, nil}, {"up", 0, 0, 0, nil}, {"down", 2, 0, 0, nil},
+			{"up", 1, 0, 0, nil}, {"down", 3, 0, 0, nil}, {"down", 0, 0, 0, nil}, {"up", 2, 0, 0, nil}, {"up", 3, 0, 0, nil}, {"down", 1, 0, 0, nil},
+			{"up", 0, 0, 0, nil}, {"down", 2, 0, 0, nil}, {"down", 3, 0, 0, nil}, {"up", 1, 0, 0, nil}, {"down", 0, 0, 0, nil}}},
+		{"up", 2, 0, 0, nil},
+		{kind: "burst", burst: []evStep{{"down", 1, 0, 0, nil}, {"down", 2, 0, 0, nil}, {"up", 0, 0, 0, nil}, {"up", 1, 0, 0, nil}, {"down", 0, 0, 0, nil},
+			{"up", 2, 0, 0, nil}, {"down", 1, 0, 0, nil}, {"up", 3, 0, 0, nil}, {"down", 2, 0, 0, nil}, {"up", 0, 0, 0, nil}, {"up", 1, 0, 0, nil},
+			{"down", 3, 0, 0, nil}, {"down", 0, 0, 0, nil}, {"up", 2, 0, 0, nil}}},
+		{"cfg", 0, 2, 2, nil}},
 }
 
 func machineCase(c *core.Ctx, r *rand.Rand) {
@@ -467,6 +617,10 @@ func machineCase(c *core.Ctx, r *rand.Rand) {
 	} else {
 		c.Branch("case-prompt-watch")
 	}
+	bursty := r.Intn(4) == 0
+	if bursty {
+		c.Branch("case-with-bursts")
+	}
 	// the generator keeps its own picture of the live set only to bias choices (repeated start-up,
 	// failure of a dead node); the events themselves are unconstrained
 	live := map[int]bool{}
@@ -488,7 +642,7 @@ func machineCase(c *core.Ctx, r *rand.Rand) {
 		for id := 0; id < nNodes; id++ {
 			if r.Intn(4) != 0 {
 				live[id] = true
-				evs = append(evs, evStep{"up", id, 0, 0})
+				evs = append(evs, evStep{"up", id, 0, 0, nil})
 			}
 		}
 	}
@@ -509,19 +663,58 @@ func machineCase(c *core.Ctx, r *rand.Rand) {
 			}
 			switch q := r.Intn(10); {
 			case q < 6:
-				evs = append(evs, evStep{"deliver", dd, 0, 0})
+				evs = append(evs, evStep{"deliver", dd, 0, 0, nil})
 				if pend[dd] > 0 {
 					pend[dd]--
 				}
 			case q < 7:
-				evs = append(evs, evStep{"deliverlast", dd, 0, 0})
+				evs = append(evs, evStep{"deliverlast", dd, 0, 0, nil})
 				if pend[dd] > 0 {
 					pend[dd]--
 				}
 			case q < 8:
-				evs = append(evs, evStep{"dup", r.Intn(nDB), 0, 0})
+				evs = append(evs, evStep{"dup", r.Intn(nDB), 0, 0, nil})
 			default:
-				evs = append(evs, evStep{"putfail", 1 + r.Intn(2), 0, 0})
+				evs = append(evs, evStep{"putfail", 1 + r.Intn(2), 0, 0, nil})
+			}
+			continue
+		}
+		if bursty && r.Intn(12) == 0 { // a burst of node events through EmitEvent; every event flips a node
+			n := 12 + r.Intn(13)
+			var b []evStep
+			for x := 0; x < n; x++ {
+				id := r.Intn(nNodes)
+				if live[id] {
+					delete(live, id)
+					b = append(b, evStep{"down", id, 0, 0, nil})
+				} else {
+					live[id] = true
+					b = append(b, evStep{"up", id, 0, 0, nil})
+				}
+			}
+			evs = append(evs, evStep{kind: "burst", burst: b})
+			continue
+		}
+		if r.Intn(16) == 0 { // the write of the published state fails during a node event; no-op events follow
+			evs = append(evs, evStep{"statefail", 0, 0, 0, nil})
+			if r.Intn(2) == 0 {
+				id := pick(false)
+				live[id] = true
+				evs = append(evs, evStep{"up", id, 0, 0, nil})
+			} else {
+				id := pick(true)
+				delete(live, id)
+				evs = append(evs, evStep{"down", id, 0, 0, nil})
+			}
+			for x := r.Intn(3); x >= 0; x-- {
+				switch id := pick(true); {
+				case live[id] && r.Intn(3) != 0:
+					evs = append(evs, evStep{"up", id, 0, 0, nil}) // re-registration
+				case r.Intn(2) == 0:
+					evs = append(evs, evStep{"down", nNodes + 1, 0, 0, nil}) // failure of a node that never started
+				default:
+					evs = append(evs, evStep{"cfg", r.Intn(nDB), 0, 1 + r.Intn(maxRF), nil}) // alter re-trigger
+				}
 			}
 			continue
 		}
@@ -529,11 +722,11 @@ func machineCase(c *core.Ctx, r *rand.Rand) {
 		case k < 3:
 			id := pick(r.Intn(4) == 0) // one in four: a node that is already live
 			live[id] = true
-			evs = append(evs, evStep{"up", id, 0, 0})
+			evs = append(evs, evStep{"up", id, 0, 0, nil})
 		case k < 6:
 			id := pick(r.Intn(4) != 0) // one in four: a node that is not live
 			delete(live, id)
-			evs = append(evs, evStep{"down", id, 0, 0})
+			evs = append(evs, evStep{"down", id, 0, 0, nil})
 		case k < 9:
 			kind, dd := "cfg", r.Intn(nDB)
 			if lagging && r.Intn(3) != 0 {
@@ -542,9 +735,9 @@ func machineCase(c *core.Ctx, r *rand.Rand) {
 			} else {
 				pend[dd] = 0
 			}
-			evs = append(evs, evStep{kind, dd, 1 + r.Intn(maxShards), 1 + r.Intn(maxRF)})
+			evs = append(evs, evStep{kind, dd, 1 + r.Intn(maxShards), 1 + r.Intn(maxRF), nil})
 		default:
-			evs = append(evs, evStep{"drop", r.Intn(nDB), 0, 0})
+			evs = append(evs, evStep{"drop", r.Intn(nDB), 0, 0, nil})
 		}
 	}
 	machineRun(c, r, evs)
@@ -560,12 +753,17 @@ func (m *machine) deliver(c *core.Ctx, d int, raw []byte) {
 	m.lastRaw[d] = raw
 	m.delivered[d] = asg
 	m.event(c, fmt.Sprintf("asg %d %s", d, showAsg(asg)), &discovery.Event{Type: discovery.ShardAssignmentChanged,
-		Key: constants.GetDatabaseAssignPath(dbName(d)), Value: raw})
+		Key: constants.GetDatabaseAssignPath(dbName(d)), Value: raw}, true)
+}
+
+func (m *machine) persistedRaw(d int) string {
+	raw, _ := m.repo.raw(constants.GetDatabaseAssignPath(dbName(d)))
+	return string(raw)
 }
 
 // persisted reads the assignment of db d from the repository (nil if none).
 func (m *machine) persisted(d int) (*models.ShardAssignment, string) {
-	raw, ok := m.repo.kv[constants.GetDatabaseAssignPath(dbName(d))]
+	raw, ok := m.repo.raw(constants.GetDatabaseAssignPath(dbName(d)))
 	if !ok {
 		return nil, ""
 	}
@@ -596,18 +794,18 @@ func machineRun(c *core.Ctx, _ *rand.Rand, evs []evStep) {
 			node.HostIP = "10.0.0." + strconv.Itoa(id)
 			data, _ := json.Marshal(&node)
 			key := constants.GetStorageLiveNodePath(strconv.Itoa(id))
-			repo.kv[key] = data
+			repo.set(key, data)
 			if m.live[id] {
 				c.Branch("ev-up-already-live")
 			} else {
 				c.Branch("ev-up")
 			}
 			m.live[id] = true
-			m.event(c, fmt.Sprintf("up %d", id), &discovery.Event{Type: discovery.NodeStartup, Key: key, Value: data})
+			m.event(c, fmt.Sprintf("up %d", id), &discovery.Event{Type: discovery.NodeStartup, Key: key, Value: data}, true)
 		case "down":
 			id := e.a
 			key := constants.GetStorageLiveNodePath(strconv.Itoa(id))
-			delete(repo.kv, key)
+			repo.del(key)
 			switch {
 			case !m.live[id]:
 				c.Branch("ev-down-not-live")
@@ -617,10 +815,17 @@ func machineRun(c *core.Ctx, _ *rand.Rand, evs []evStep) {
 				c.Branch("ev-down")
 			}
 			delete(m.live, id)
-			m.event(c, fmt.Sprintf("down %d", id), &discovery.Event{Type: discovery.NodeFailure, Key: key})
+			m.event(c, fmt.Sprintf("down %d", id), &discovery.Event{Type: discovery.NodeFailure, Key: key}, true)
 		case "putfail":
 			repo.failAsgPut = e.a
 			c.Branch("ev-arm-put-fault")
+		case "statefail":
+			repo.mu.Lock()
+			repo.failStatePut = true
+			repo.mu.Unlock()
+			c.Branch("ev-arm-state-fault")
+		case "burst":
+			m.burst(c, e.burst)
 		case "cfg", "cfgq": // create database / grow shards
 			d := e.a
 			cfg, ok := m.dbs[d]
@@ -634,12 +839,12 @@ func machineRun(c *core.Ctx, _ *rand.Rand, evs []evStep) {
 			data, _ := json.Marshal(cfg)
 			asgKey := constants.GetDatabaseAssignPath(cfg.Name)
 			before, oldRaw := m.persisted(d)
-			putsBefore := repo.asgPuts[asgKey]
+			putsBefore := repo.puts(asgKey)
 			armed := repo.failAsgPut > 0
 			m.dbs[d] = cfg
 			liveNow := m.liveIDs()
 			m.event(c, fmt.Sprintf("dbcfg %d", d), &discovery.Event{Type: discovery.DatabaseConfigChanged,
-				Key: constants.GetDatabaseConfigPath(cfg.Name), Value: data})
+				Key: constants.GetDatabaseConfigPath(cfg.Name), Value: data}, false)
 			if armed && repo.failAsgPut == 0 {
 				c.Branch("ev-put-fault-hit")
 			}
@@ -679,7 +884,7 @@ func machineRun(c *core.Ctx, _ *rand.Rand, evs []evStep) {
 				c.NonTrivial()
 			}
 			// every successful Put makes the etcd watch emit the payload (one is kept per config event)
-			if repo.asgPuts[asgKey] > putsBefore {
+			if repo.puts(asgKey) > putsBefore {
 				m.pending[d] = append(m.pending[d], []byte(newRaw))
 			} else if after == nil {
 				// creation failed (no live node / rf too large / write failure): the manager keeps the
@@ -714,7 +919,7 @@ func machineRun(c *core.Ctx, _ *rand.Rand, evs []evStep) {
 			switch _, known := m.dbs[d]; {
 			case !known:
 				c.Branch("ev-asg-late-after-drop")
-			case string(raw) != string(repo.kv[constants.GetDatabaseAssignPath(dbName(d))]):
+			case string(raw) != m.persistedRaw(d):
 				c.Branch("ev-asg-late-stale")
 			default:
 				c.Branch("ev-asg-late-current")
@@ -729,7 +934,7 @@ func machineRun(c *core.Ctx, _ *rand.Rand, evs []evStep) {
 		case "drop":
 			d := e.a
 			name := dbName(d)
-			delete(repo.kv, constants.GetDatabaseAssignPath(name))
+			repo.del(constants.GetDatabaseAssignPath(name))
 			_, known := m.dbs[d]
 			delete(m.dbs, d)
 			if known {
@@ -739,9 +944,140 @@ func machineRun(c *core.Ctx, _ *rand.Rand, evs []evStep) {
 			} else {
 				c.Branch("ev-drop-unknown-db")
 			}
-			m.event(c, fmt.Sprintf("dropdb %d", d), &discovery.Event{Type: discovery.DatabaseConfigDeletion, Key: constants.GetDatabaseConfigPath(name)})
+			m.event(c, fmt.Sprintf("dropdb %d", d), &discovery.Event{Type: discovery.DatabaseConfigDeletion, Key: constants.GetDatabaseConfigPath(name)}, known)
 		}
 	}
+}
+
+const sentinelDB = 900
+
+// burst hands node events to the manager the way the discovery layer does: through the real
+// EmitEvent, from another goroutine, back to back, while the consumer goroutine is held inside the
+// first event's repository write (a slow etcd). Then the write is released, a marker event is sent
+// after the burst and, once the manager has reached the marker, the leadership clauses are applied
+// against the full event history. C18 speaks about what is reported after "any sequence of node
+// start and failure events": every event handed to EmitEvent has to take effect, in order.
+func (m *machine) burst(c *core.Ctx, evs []evStep) {
+	if len(evs) == 0 {
+		return
+	}
+	repo := m.repo
+	var ops []string
+	var des []*discovery.Event
+	for _, e := range evs {
+		key := constants.GetStorageLiveNodePath(strconv.Itoa(e.a))
+		if e.kind == "up" {
+			node := models.StatefulNode{ID: models.NodeID(e.a)}
+			node.HostIP = "10.0.0." + strconv.Itoa(e.a)
+			data, _ := json.Marshal(&node)
+			repo.set(key, data)
+			m.live[e.a] = true
+			des = append(des, &discovery.Event{Type: discovery.NodeStartup, Key: key, Value: data})
+		} else {
+			repo.del(key)
+			delete(m.live, e.a)
+			des = append(des, &discovery.Event{Type: discovery.NodeFailure, Key: key})
+		}
+		ops = append(ops, e.kind, strconv.Itoa(e.a))
+	}
+	c.Branch("ev-burst")
+	c.Branch(fmt.Sprintf("burst-len-%02d", (len(evs)/4)*4))
+	op := "burst " + strings.Join(ops, " ")
+
+	repo.mu.Lock()
+	repo.faultFired = false
+	stall := make(chan struct{})
+	repo.stall = stall
+	repo.stalled = make(chan struct{}, 1)
+	repo.sentinelKey = constants.GetDatabaseAssignPath(dbName(sentinelDB))
+	repo.sentinelSeen = make(chan struct{}, 1)
+	stalled, seen := repo.stalled, repo.sentinelSeen
+	repo.mu.Unlock()
+	release := func() {
+		repo.mu.Lock()
+		if repo.stall != nil {
+			close(repo.stall)
+			repo.stall = nil
+		}
+		repo.mu.Unlock()
+	}
+	defer release()
+
+	var emitted int64
+	done := make(chan struct{})
+	go func() {
+		defer close(done)
+		defer func() { _ = recover() }()
+		for _, ev := range des {
+			m.mgr.EmitEvent(ev)
+			atomic.AddInt64(&emitted, 1)
+		}
+	}()
+	// the consumer is inside the first event's state write ...
+	select {
+	case <-stalled:
+	case <-time.After(5 * time.Second):
+		release()
+		c.Fail("burst-consumer-never-reached-the-repository", op)
+	}
+	// ... and the emitter has either handed over everything or is blocked on the full channel
+	last, since := int64(-1), time.Now()
+	for waiting := true; waiting; {
+		select {
+		case <-done:
+			waiting = false
+		default:
+			if n := atomic.LoadInt64(&emitted); n != last {
+				last, since = n, time.Now()
+			} else if time.Since(since) > 1500*time.Microsecond {
+				waiting = false
+			}
+			time.Sleep(100 * time.Microsecond)
+		}
+	}
+	if int(atomic.LoadInt64(&emitted)) < len(des) {
+		c.Branch("burst-emitter-blocked-on-full-channel")
+	}
+	release()
+	ok := true
+	select {
+	case <-done:
+	case <-time.After(10 * time.Second):
+		ok = false
+		c.Fail("burst-emit-timeout", op)
+	}
+	// marker after the burst: a config event of a database with 0 shards (nothing is assigned, the
+	// handler only looks the assignment up in the repository, which is what the harness waits for)
+	cfg := &models.Database{Name: dbName(sentinelDB), NumOfShard: 0, ReplicaFactor: 1}
+	data, _ := json.Marshal(cfg)
+	marker := &discovery.Event{Type: discovery.DatabaseConfigChanged, Key: constants.GetDatabaseConfigPath(cfg.Name), Value: data}
+	deadline := time.Now().Add(10 * time.Second)
+	for reached := false; ok && !reached; {
+		m.mgr.EmitEvent(marker) // idempotent; repeated only if the manager did not get to it in time
+		select {
+		case <-seen:
+			reached = true
+		case <-time.After(20 * time.Millisecond):
+			if time.Now().After(deadline) {
+				ok = false
+				c.Fail("burst-quiescence-timeout", op)
+			}
+		}
+	}
+	repo.mu.Lock()
+	repo.sentinelKey, repo.sentinelSeen, repo.stalled = "", nil, nil
+	repo.mu.Unlock()
+	if !ok {
+		c.Op(op, "timeout")
+		return
+	}
+	// GetStorageState takes the manager's read lock: it returns after the marker's handler has finished
+	out := m.dump()
+	c.Op(op, out)
+	m.oracle(c, op)
+	m.publishedOracle(c, op)
+	m.dbs[sentinelDB] = cfg
+	c.Op(fmt.Sprintf("dbcfg %d", sentinelDB), m.dump())
 }
 
 // leads reports whether node id currently leads at least one shard.
